@@ -36,8 +36,62 @@ __CPROVER_ensures((self->vData_size > 0 && g_n < self->nHashFuncs && BIT_SET(sel
 __CPROVER_ensures((self->vData_size > 0 && !__CPROVER_return_value) ==> (g_wit < self->nHashFuncs && g_hash[g_wit] < self->vData_size * 8 && !BIT_SET(self, g_hash[g_wit])))
 __CPROVER_assigns(g_wit);
 
+/* ---- Golomb-Rice coding over a ghost bit stream: [ones x 1-bits][one 0-bit][P-bit field] ---- */
+typedef struct { int dummy; } BitWriter; typedef struct { int dummy; } BitReader;
+unsigned __int128 g_ones; bool g_zero_written; bool g_field_written; uint64_t g_field; unsigned g_field_bits;      /* what the writer emitted, in order */
+unsigned __int128 g_ones_read; bool g_zero_read;                                                                      /* how far the reader got */
+#ifdef TWIN_GR
+#define LOWBITS(x, P) ((P) == 0 ? 0 : ((x) & (((uint64_t)1 << (P)) - 1)) ^ 1)
+#else
+#define LOWBITS(x, P) ((P) == 0 ? 0 : ((x) & (((uint64_t)1 << (P)) - 1)))
+#endif
+static inline void BitWriter_Write(BitWriter* w, uint64_t data, int nbits)          /* VERIF_STUB of BitStreamWriter::Write: records the events */
+{
+    __CPROVER_assert(nbits >= 0 && nbits <= 64, "Write: nbits between 0 and 64 (else it throws)");
+    if (!g_zero_written) { if (nbits == 1 && (data & 1) == 0) g_zero_written = 1; else { __CPROVER_assert(nbits >= 1 && (nbits == 64 ? data == ~0ULL : (data & (((uint64_t)1 << nbits) - 1)) == (((uint64_t)1 << nbits) - 1)), "unary part: only one bits before the terminating zero"); g_ones = g_ones + (unsigned)nbits; } }
+    else { __CPROVER_assert(!g_field_written, "exactly one field after the zero bit"); g_field_written = 1; g_field_bits = (unsigned)nbits; g_field = nbits == 0 ? 0 : nbits == 64 ? data : (data & (((uint64_t)1 << nbits) - 1)); }
+}
+static inline uint64_t BitReader_Read(BitReader* r, int nbits)                      /* VERIF_STUB of BitStreamReader::Read over the same kind of stream */
+{
+    if (!g_zero_read) { __CPROVER_assert(nbits == 1, "unary part is read bit by bit"); if (g_ones_read < g_ones) { g_ones_read = g_ones_read + 1; return 1; } g_zero_read = 1; return 0; }
+    __CPROVER_assert((unsigned)nbits == g_field_bits, "the field is read with the width it was written with"); return g_field;
+}
+#define LOOP_UNARY_W \
+    __CPROVER_assigns(q, g_ones) \
+    __CPROVER_loop_invariant(!g_zero_written && g_ones + q == (x >> P)) \
+    __CPROVER_decreases(q)
+#define LOOP_UNARY_R \
+    __CPROVER_assigns(q, g_ones_read, g_zero_read) \
+    __CPROVER_loop_invariant(!g_zero_read && g_ones_read <= g_ones && (unsigned __int128)q == g_ones_read) \
+    __CPROVER_decreases(g_ones - g_ones_read)
+void GolombRiceEncode(BitWriter* bitwriter, uint8_t P, uint64_t x)
+__CPROVER_requires(__CPROVER_is_fresh(bitwriter, sizeof(BitWriter)) && P < 64 && g_ones == 0 && !g_zero_written && !g_field_written)
+__CPROVER_ensures(g_ones == (x >> P) && g_zero_written && g_field_written && g_field_bits == P && g_field == LOWBITS(x, P))
+__CPROVER_assigns(g_ones, g_zero_written, g_field_written, g_field, g_field_bits);
+uint64_t GolombRiceDecode(BitReader* bitreader, uint8_t P)
+__CPROVER_requires(__CPROVER_is_fresh(bitreader, sizeof(BitReader)) && P < 64 && g_ones <= 0xffffffffffffffffULL && g_ones_read == 0 && !g_zero_read && g_field_bits == P && (P == 0 ? g_field == 0 : g_field < ((uint64_t)1 << P)) && ((unsigned __int128)g_ones << P) + g_field <= 0xffffffffffffffffULL)
+__CPROVER_ensures((unsigned __int128)__CPROVER_return_value == ((unsigned __int128)g_ones << P) + g_field && g_zero_read)
+__CPROVER_assigns(g_ones_read, g_zero_read);
+
 #define GHOST_WIT(i) (g_wit = (i))
 #include "slices.h"
+unsigned char nondet_uchar(void); uint64_t nondet_u64(void);
+void h_GolombRiceEncode(void) { BitWriter* w; uint8_t P = nondet_uchar(); uint64_t x = nondet_u64(); GolombRiceEncode(w, P, x); if (P == 19 && (x >> P) == 130) VERIF_REACH_PT("BIP158 P, two full 64-bit unary writes"); }
+void h_GolombRiceDecode(void) { BitReader* r; uint8_t P = nondet_uchar(); uint64_t v = GolombRiceDecode(r, P); if (P == 19 && v == 1000000) VERIF_REACH_PT("decoded"); }
+/* lemma (contracts only): what Encode writes, Decode reads back as x */
+void h_lemma_golomb_roundtrip(void)
+{
+    BitWriter* w = malloc(sizeof(BitWriter)); BitReader* r = malloc(sizeof(BitReader)); __CPROVER_assume(w && r); uint8_t P = nondet_uchar(); __CPROVER_assume(P < 64); uint64_t x = nondet_u64();
+    g_ones = 0; g_zero_written = 0; g_field_written = 0; g_ones_read = 0; g_zero_read = 0;
+    GolombRiceEncode(w, P, x);
+    uint64_t y = GolombRiceDecode(r, P);
+#ifdef TWIN_RT
+    __CPROVER_assert(y == x + 1, "twin");
+#else
+    __CPROVER_assert(y == x, "GolombRiceDecode(GolombRiceEncode(x)) == x for every x and every P < 64");
+#endif
+    VERIF_REACH_PT("end");
+}
 
 void h_insert(void) { CBloomFilter* f; g_n = nondet_uint(); g_byte = nondet_size_t(); CBloomFilter_insert(f); VERIF_REACH_PT("inserted"); }
 void h_contains(void) { const CBloomFilter* f; g_n = nondet_uint(); bool r = CBloomFilter_contains(f); if (r) VERIF_REACH_PT("match"); else VERIF_REACH_PT("no match"); }
